@@ -59,6 +59,7 @@ def atoms(nm: Namer) -> Dict[str, T]:
         "lit_bool": Lit((True,)),
         "lit_str": Lit(("a", "b")),
         "lit_int": Lit((1, 2)),
+        "lit_empty": Lit(("",)),  # a single, falsy, literal value
         "enum_int": EnumT(nm("E"), (("A", 1), ("B", 2))),
         "enum_str": EnumT(nm("E"), (("A", "a"), ("B", "b"))),
         "newtype_int": NewT(nm("N"), INT),
@@ -350,6 +351,11 @@ def object_shapes(nm: Namer) -> Dict[str, Callable[[T, Ctx], Optional[T]]]:
             (F("a", TVar("TV")), F("b", Coll("list", TVar("TV")), factory="list", default_value=[]), F("o", Opt(TVar("TV")), default="None", has_default=True, default_value=None)),
             generic_params=("TV",),
         )
+        return Gen(o, (x,))
+
+    def generic_ser_method(x, c):
+        # a serialized method typed by the type variable: serialized as the argument of the specialisation
+        o = Obj("dataclass", nm("O"), (F("a", TVar("TV")),), generic_params=("TV",), methods=(M("ma", Opt(TVar("TV")), "self.a", lambda fs: fs["a"]),))
         return Gen(o, (x,))
 
     def class_validator(x, c):
